@@ -10,9 +10,10 @@
   Arithmetic is exact: IEEE rounding is observed by the correspondence, not proved.
 -/
 import OpmVerif.Proofs.Units
+import OpmVerif.Proofs.UnitsUse
 
 namespace OpmVerif.Props.C02
-open OpmVerif.Units OpmVerif.Gen.Units
+open OpmVerif.Units OpmVerif.Gen.Units OpmVerif.Gen.UnitsUse
 
 /-! ## invertible -/
 
@@ -254,5 +255,193 @@ example : (({ witnessItem with dval := [100, 7], status := [.deckValue, .validDe
 example : let sol : Sol Rat := { si := true, cells := [(5, [Spec.psi * 3000]), (7, [Spec.degFOffset + 60 * Spec.degF]), (0, [42])] }
     (sol.convertFromSI (sys.UNIT_TYPE_FIELD Rat)).cells = [(5, [3000]), (7, [60]), (0, [42])] ∧
     (∀ c ∈ sol.cells, c.1 < measureNames.length) := by decide +kernel
+
+/-! ## round 3: the grammar in closed form, offsets, keyword items, other users of the tables -/
+
+/-- n-ary product: for ANY system/table and any list of tokens naming offset-free finite dimensions,
+`parse "t₁*…*tₙ" = f₁·…·fₙ`; `n = 0` is the empty string, which parses to 1. -/
+theorem parse_product (s : SysDef Rat) (ts : List (List Char)) (fs : List Rat)
+    (htok : ∀ t ∈ ts, IsTok t) (h : List.Forall₂ (TokOk s) ts fs) :
+    parseChars s (joinStar ts) = some ⟨some (prodQ fs), 0⟩ :=
+  parseChars_product s ts fs htok h
+
+/-- quotient of two products; the numerator may be empty (`"/Length"` = 1/Length), the
+denominator may not (`"Length/"` is outside the defined behaviour of the real code, see `parse_ub_iff`) -/
+theorem parse_quotient (s : SysDef Rat) (ns ds : List (List Char)) (fn fd : List Rat)
+    (hn : ∀ t ∈ ns, IsTok t) (hd : ∀ t ∈ ds, IsTok t) (hne : ds ≠ [])
+    (pn : List.Forall₂ (TokOk s) ns fn) (pd : List.Forall₂ (TokOk s) ds fd) :
+    parseChars s (joinStar ns ++ '/' :: joinStar ds) = some ⟨some (prodQ fn / prodQ fd), 0⟩ :=
+  parseChars_quotient s ns ds fn fd hn hd hne pn pd
+
+/-- a single dimension with a conversion offset ("Temperature") is handed out with its offset … -/
+theorem parse_single_offset (s : SysDef Rat) (t : List Char) (d : Dim Rat) (ht : IsTok t)
+    (hd : getDimension s (String.ofList t) = some d) (ho : d.offset ≠ 0) : parseChars s t = some d :=
+  parseChars_single_offset s t d ht hd ho
+
+/-- … and refused anywhere inside a product of two or more factors; two `/` are refused -/
+theorem parse_offset_in_product (s : SysDef Rat) (pre post : List (List Char)) (fs : List Rat) (t : List Char)
+    (d : Dim Rat) (htok : ∀ x ∈ pre ++ t :: post, IsTok x) (hlen : 1 < (pre ++ t :: post).length)
+    (hp : List.Forall₂ (TokOk s) pre fs) (hd : getDimension s (String.ofList t) = some d) (ho : d.offset ≠ 0) :
+    parseChars s (joinStar (pre ++ t :: post)) = none :=
+  parseChars_offset_in_product s pre post fs t d htok hlen hp hd ho
+
+theorem parse_two_div (s : SysDef Rat) (cs : List Char) (h : 1 < cs.count '/') : parseChars s cs = none :=
+  parseChars_two_div s cs h
+
+/-- `UnitSystem::parse` indexes `parts[1]` of a one-element vector (undefined behaviour) exactly
+for the strings that end in their only `/` — and only while the source does not refuse them first;
+the flag is read off `UnitSystem.cpp` by the translator on every run -/
+theorem parse_ub_iff (cs : List Char) :
+    parseUB cs = true ↔ parseRejectsTrailingSlash = false ∧ ∃ a, '/' ∉ a ∧ cs = a ++ ['/'] :=
+  parseUB_iff cs
+
+/-- NO string reaches that undefined behaviour if and only if the guard is in the source (it is
+since fix ee5075475; reverting it makes the right-hand side `false` and the property-mode probe
+`parse.trailing_slash` fails on the real code) -/
+theorem parse_never_ub_iff : (∀ cs : List Char, parseUB cs = false) ↔ parseRejectsTrailingSlash = true :=
+  parse_never_ub_iff'
+
+/-- what the code does for these strings now: `parse` throws (any system, any `a` without `/`) -/
+theorem parse_trailing_slash_refused (s : SysDef Rat) (a : List Char) (ha : '/' ∉ a) :
+    parseChars s (a ++ ['/']) = none :=
+  parseChars_trailingSlash s _ ((trailingSlash_iff _).mpr ⟨a, ha, rfl⟩)
+
+/-- whatever `parse` accepts has a non-zero factor — all five systems, ALL strings -/
+theorem parse_factor_ne_zero (s : SysDef Rat) (hs : s ∈ systems Rat) (str : String) (d : Dim Rat) (f : Rat)
+    (h : parse s str = some d) (hf : d.scale = some f) : f ≠ 0 :=
+  parseChars_ne_zero s hs _ d f h hf
+
+/-- the string overloads invert each other for every system, every accepted string with a finite
+factor (composites, and single dimensions WITH offset), every value -/
+theorem string_overloads_roundtrip (s : SysDef Rat) (hs : s ∈ systems Rat) (str : String) (d : Dim Rat)
+    (hp : parse s str = some d) (hfin : d.scale.isSome) (x : Rat) :
+    (∃ y, fromSIStr s str x = some y ∧ toSIStr s str y = some x) ∧
+    (∃ y, toSIStr s str x = some y ∧ fromSIStr s str y = some x) :=
+  string_roundtrip s hs str d hp hfin x
+
+/-- °C ↦ K is `x + 273.15` (METRIC, LAB, PVT-M), °F ↦ K is `(x + 459.67)·5/9` (FIELD), with the
+inverse maps, for all values -/
+theorem temperature_conversion :
+    (∀ s ∈ Spec.deckSystems, s.deckName ≠ some "FIELD" → ∀ x : Rat, toSI s tempIdx x = x + Spec.degCOffset ∧
+        fromSI s tempIdx x = x - Spec.degCOffset) ∧
+    (∀ x : Rat, toSI (sys.UNIT_TYPE_FIELD Rat) tempIdx x = (x + Spec.dec 45967 2) * (5 / 9) ∧
+        fromSI (sys.UNIT_TYPE_FIELD Rat) tempIdx x = x * (9 / 5) - Spec.dec 45967 2) :=
+  temperature_values
+
+/-- "Temperature" is the only registered dimension with an offset, the string and the measure
+agree, and temperature differences convert with the "AbsoluteTemperature" factor -/
+theorem temperature_offset_dimension :
+    ∀ s ∈ Spec.deckSystems,
+      parse s "Temperature" = some (measureDim s tempIdx) ∧
+      (∀ e ∈ s.dims, e.2.2 ≠ 0 → e.1 = "Temperature") ∧
+      ∃ fa, getDimension s "AbsoluteTemperature" = some ⟨some fa, 0⟩ ∧
+        ∀ x y : Rat, toSI s tempIdx x - toSI s tempIdx y = (x - y) * fa :=
+  temperature_dimension
+
+/-- "ContextDependent" has no factor in the deck systems (1 in INPUT): the parser item gets the
+factor-less entry, `parse` and the string overloads throw … -/
+theorem context_dependent_has_no_factor :
+    (∀ s ∈ Spec.deckSystems, getNewDimension s "ContextDependent" = some ⟨none, 0⟩ ∧ parse s "ContextDependent" = none ∧
+        ∀ x : Rat, toSIStr s "ContextDependent" x = none) ∧
+    getNewDimension (sys.UNIT_TYPE_INPUT Rat) "ContextDependent" = some ⟨some 1, 0⟩ :=
+  context_dependent_dimension
+
+/-- … and an item with such dimensions never converts, for ANY call sequence: the SI accessors
+throw, `getData<double>` shows the deck values, the item is unchanged -/
+theorem context_dependent_item_never_converts (h : Bool) (it : Item Rat) (hc : it.ContextDep) (cs : List Call) :
+    (it.run h cs).1 = it ∧
+    ∀ (k : Nat) (c : Call), cs[k]? = some c → (it.run h cs).2[k]? = some (ctxObs h it c) :=
+  context_dependent_item h it hc cs
+
+/-- EVERY dimension of EVERY item of every keyword compiled into the parser (table regenerated
+from the JSON files each run), in all four deck systems and INPUT: it resolves as
+`ParserItem::scan` resolves it, a registered name to its table entry, a composite to offset 0 and
+the product/quotient of the table factors of its parts (the specification's own reading of the
+string), and never reaches the undefined behaviour of `parse`.  Only exception: INPUT has no
+"Ymodule". -/
+theorem keyword_item_dimensions (s : SysDef Rat) (hs : s ∈ systems Rat) (e : String × List String)
+    (he : e ∈ keywordItemDims) (str : String) (hstr : str ∈ e.2) (hin : s.deckName.isSome ∨ str ∉ Spec.inputLacks) :
+    Spec.itemDimOk s str = true :=
+  keyword_items_ok s hs e he str hstr hin
+
+/-- the unit strings of `FieldProps.hpp` (scalar of EQUALS/ADD/…, OPERATE) parse in each deck
+system with the specified meaning — except the keywords listed as open findings -/
+theorem fieldprops_unit_strings :
+    ∀ s ∈ Spec.deckSystems, ∀ e ∈ fieldPropsUnits, e.2.1 ∉ Spec.fieldPropsOpen → Spec.parseOk s e.2.2 = true := by
+  intro s hs e he hn
+  have := List.all_eq_true.mp (List.all_eq_true.mp fieldprops_ok s hs) e he
+  simpa [hn] using this
+
+/-- … and denote the same dimension as the keyword's own JSON item (array form = scalar form),
+except the listed open findings -/
+theorem fieldprops_unit_matches_keyword :
+    ∀ s ∈ Spec.deckSystems, ∀ e ∈ fieldPropsUnits, e.2.1 ∉ Spec.fieldPropsMismatchOpen → Spec.fieldPropsMatch s e = true := by
+  intro s hs e he hn
+  have := List.all_eq_true.mp (List.all_eq_true.mp fieldprops_match s hs) e he
+  simpa [hn] using this
+
+/-- `uda_dim(control)` (the dimension a UDA gets when rebuilt from a restart file) is the dimension
+of the control's deck item, in each deck system — except the listed open findings -/
+theorem uda_dim_matches_deck_item :
+    ∀ s ∈ Spec.deckSystems, ∀ e ∈ udaDim, e.1 ∉ Spec.udaOpen → Spec.udaOk s e = true := by
+  intro s hs e he hn
+  have := List.all_eq_true.mp (List.all_eq_true.mp uda_ok s hs) e he
+  simpa [hn] using this
+
+/-- the measure lookups of the summary evaluator (C09): the unit tag `mul_unit(a,b)` has the
+conversion factor `factor a · factor b` and `div_unit(a,b)` has `factor a / factor b`, all tags
+offset-free, in all five systems (rows with denominator `time` are dead in Summary.cpp) -/
+theorem summary_unit_algebra :
+    (∀ s ∈ systems Rat, ∀ e ∈ summaryMulUnit, factorOf s e.2.2 = factorOf s e.1 * factorOf s e.2.1) ∧
+    (∀ s ∈ systems Rat, ∀ e ∈ summaryDivUnit, e.2.1 ≠ "time" → factorOf s e.2.2 = factorOf s e.1 / factorOf s e.2.1) := by
+  constructor
+  · intro s hs e he
+    have := List.all_eq_true.mp (List.all_eq_true.mp summary_mul_ok s hs) e he
+    simp only [Bool.and_eq_true, beq_iff_eq] at this
+    exact this.1.1.1.2
+  · intro s hs e he hn
+    have := List.all_eq_true.mp (List.all_eq_true.mp summary_div_ok s hs) e he
+    simp only [Bool.and_eq_true, Bool.or_eq_true, beq_iff_eq] at this
+    rcases this.1.1.1.2 with h | h
+    · exact absurd h hn
+    · exact h
+
+/-! ### non-vacuity (round 3) -/
+
+-- tokens of a real keyword string satisfy the hypotheses of parse_quotient
+example : let s := sys.UNIT_TYPE_FIELD Rat
+    joinStar ["Energy".toList] ++ '/' :: joinStar ["AbsoluteTemperature".toList, "Length".toList, "Time".toList] =
+      "Energy/AbsoluteTemperature*Length*Time".toList ∧
+    getDimension s (String.ofList "Energy".toList) = some ⟨some Spec.btu, 0⟩ ∧
+    getDimension s (String.ofList "Length".toList) = some ⟨some Spec.foot, 0⟩ ∧
+    parse s "Energy/AbsoluteTemperature*Length*Time" = some ⟨some (Spec.btu / (5 / 9 * Spec.foot * Spec.day)), 0⟩ ∧
+    parse s "/Length" = some ⟨some (1 / Spec.foot), 0⟩ := by decide +kernel
+-- the trailing-slash strings, and near misses that are not; with the guard none of them is UB
+example : trailingSlash "Length/".toList = true ∧ trailingSlash "/".toList = true ∧ trailingSlash "Length*Time/".toList = true ∧
+    trailingSlash "/Length".toList = false ∧ trailingSlash "Length//".toList = false ∧ trailingSlash "".toList = false ∧
+    parse (sys.UNIT_TYPE_FIELD Rat) "Length/" = none ∧ '/' ∉ "Length*Time".toList := by decide +kernel
+-- string overloads on an offset dimension: 60 °F
+example : toSIStr (sys.UNIT_TYPE_FIELD Rat) "Temperature" 60 = some ((60 + Spec.dec 45967 2) * 5 / 9) ∧
+    fromSIStr (sys.UNIT_TYPE_FIELD Rat) "Temperature" ((60 + Spec.dec 45967 2) * 5 / 9) = some 60 := by decide +kernel
+-- a context dependent item (NNC TRAN / WCONINJE RATE): hypotheses are satisfiable
+def ctxWitness : Item Rat :=
+  { dval := [100, 7], status := [.deckValue, .validDefault], rawData := true,
+    active := [⟨none, 0⟩], dflt := [⟨none, 0⟩] }
+example : ctxWitness.ContextDep := by
+  refine ⟨rfl, by simp [ctxWitness], by simp [ctxWitness], ?_, ?_⟩ <;> simp [ctxWitness]
+-- keyword items: some rows of the table the theorem ranges over, incl. a multi-column one
+example : ("ZMFVD.0.DATA", ["Length", "1", "1"]) ∈ keywordItemDims ∧
+    keywordItemDims.length > 1000 ∧ "Ymodule" ∈ keywordDimStrings := by decide +kernel
+-- the open findings are real (the listed exceptions do fail: LIFT everywhere, RESV in FIELD only), the
+-- repaired ones hold, and the pre-fix FieldProps entry would not ("Giga*Pascal" parses nowhere)
+example : Spec.deckSystems.all (fun s => !Spec.udaOk s ("WCONPROD_LIFT", "gas_surface_rate")) = true ∧
+    Spec.deckSystems.all (fun s => (parse s "Giga*Pascal").isNone) = true ∧
+    Spec.udaOk (sys.UNIT_TYPE_FIELD Rat) ("WCONPROD_RESV", "geometric_volume_rate") = false ∧
+    Spec.udaOk (sys.UNIT_TYPE_METRIC Rat) ("WCONPROD_RESV", "geometric_volume_rate") = true ∧
+    Spec.udaOk (sys.UNIT_TYPE_FIELD Rat) ("WCONPROD_RESV", "rate") = true ∧
+    ("GRID", "YMODULE", "Ymodule") ∈ fieldPropsUnits := by decide +kernel
+-- summary: Mscf/day · day = Mscf, Mscf/day ÷ stb/day = Mscf/stb in FIELD
+example : factorOf (sys.UNIT_TYPE_FIELD Rat) "gas_surface_rate" = Spec.day / Spec.mscf ∧
+    ("gas_surface_rate", "liquid_surface_rate", "gas_oil_ratio") ∈ summaryDivUnit := by decide +kernel
 
 end OpmVerif.Props.C02
